@@ -170,7 +170,7 @@ class Streams:
                                 case_type=self.case_type[stream])
             run.log("stream %s: %d cases, %.1fs" % (stream, len(lst), _t.time() - t_s))
             return stream, bad
-        with ThreadPoolExecutor(max_workers=4) as ex:
+        with ThreadPoolExecutor(max_workers=4 if run.tier == "quick" else 1) as ex:   # thorough: 12 coqc at a time
             results = list(ex.map(one, list(self.items)))
         for stream, bad in results:
             lst = self.items[stream]
